@@ -1,2 +1,5 @@
 From OCV Require Export Base.Prelude Queue.PMap Queue.OWS Queue.OWSOracle Cases.OWS.
-Definition judge := judge_with o_c06.
+From OCV Require Queue.PWS.
+From OCV Require Export Cases.PWS.
+Definition judge (c : qcase + pcase) : verdict :=
+  match c with inl q => judge_with o_c06 q | inr p => judge_pws_c06 p end.
